@@ -23,6 +23,8 @@ var (
 	Alt     *cpualt.CPU
 	// Sys is an emulator.System whose bus is a copy of MainBus (one RAM over MainMem, whole range).
 	Sys *emulator.System
+	// Sys2 is a second System over SpecMem (for with/without-logger comparisons).
+	Sys2 *emulator.System
 )
 
 func init() {
@@ -38,6 +40,11 @@ func init() {
 	Sys = &emulator.System{}
 	Sys.Bus = *MainBus
 	Sys.CPU.Init(&Sys.Bus)
+	Sys2 = &emulator.System{}
+	if err := Sys2.Bus.Attach(memory.NewRAM(SpecMem, 0), "ram", 0x000000, 0xFFFFFF); err != nil {
+		panic(err)
+	}
+	Sys2.CPU.Init(&Sys2.Bus)
 }
 
 // Pre is an arbitrary register state (all raw fields of the interpreters' CPU structs).
@@ -124,4 +131,19 @@ func AbstractAlt(c *cpualt.CPU) w65816.Arch {
 // FlagsValid is the representation invariant on flag bytes.
 func FlagsValid(N, V, M, X, D, I, Z, C, E uint8) bool {
 	return N|V|M|X|D|I|Z|C|E <= 1
+}
+
+// FromMain / FromAlt read every raw field back (the inverse of ToMain / ToAlt).
+func FromMain(c *cpu65c816.CPU) Pre {
+	return Pre{PC: c.PC, SP: c.SP, RA: c.RA, RX: c.RX, RY: c.RY, RD: c.RD, RAh: c.RAh, RAl: c.RAl, RXl: c.RXl, RYl: c.RYl, RDBR: c.RDBR, RK: c.RK,
+		N: c.N, V: c.V, M: c.M, X: c.X, D: c.D, I: c.I, Z: c.Z, C: c.C, B: c.B, E: c.E,
+		Interrupt: c.Interrupt, Cycles: c.Cycles, WDM: c.WDM, PRK: c.PRK, PPC: c.PPC, AllCycles: c.AllCycles, Stopped: c.Stopped,
+		EA: c.StepInfo.EA, Addr: c.StepInfo.Addr, Mode: c.StepInfo.Mode}
+}
+
+func FromAlt(c *cpualt.CPU) Pre {
+	return Pre{PC: c.PC, SP: c.SP, RA: c.RA, RX: c.RX, RY: c.RY, RD: c.RD, RAh: c.RAh, RAl: c.RAl, RXl: c.RXl, RYl: c.RYl, RDBR: c.RDBR, RK: c.RK,
+		N: c.N, V: c.V, M: c.M, X: c.X, D: c.D, I: c.I, Z: c.Z, C: c.C, B: c.B, E: c.E,
+		Interrupt: c.Interrupt, Cycles: c.Cycles, WDM: c.WDM, PRK: c.PRK, PPC: c.PPC, AllCycles: c.AllCycles, Stopped: c.Stopped,
+		EA: c.StepInfo.EA, Addr: c.StepInfo.Addr, Mode: c.StepInfo.Mode, BusM: c.Bus.M}
 }
